@@ -35,9 +35,9 @@ def load_known():
         return json.load(fh).get("findings", [])
 
 
-def run_property(pid: str, tier: str, root: str | None = None):
+def run_property(pid: str, tier: str, root: str | None = None, project=None):
     """Analyse and return (results, module).  Raises AnalysisError."""
-    project = model.load(root)
+    project = project or model.load(root)
     mod = importlib.import_module(f"verif.props.{pid.lower()}")
     ctx = Ctx(project, tier)
     results: list[RuleResult] = mod.run(ctx)
@@ -126,7 +126,10 @@ def check(pid: str, tier: str, root, write_evidence: bool, as_json: bool):
         from . import mutants
 
         selftest = mutants.run_for(pid)
-        print(f"  self-test: {selftest['killed']}/{selftest['applied']} mutants detected, {selftest['twins_silent']}/{selftest['twins']} benign twins silent, {selftest['skipped']} skipped (anchor edited)")
+        print(
+            f"  self-test: {selftest['killed']}/{selftest['applied']} mutants detected, {selftest['twins_silent']}/{selftest['twins']} benign twins silent, "
+            f"{selftest['seeded_detected']}/{selftest['seeded']} kept seeded changes detected, {selftest['skipped']} skipped (anchor edited)"
+        )
         for line in selftest["failures"]:
             print(f"  SELF-TEST-FAILURE {line}")
         st_fail = bool(selftest["failures"])
